@@ -102,6 +102,9 @@ func c02Worker(w *core.WorkerCtx) {
 	if w.Batch == 2 {
 		c01TruncationRace(w, []string{"C02"})
 	}
+	if w.Batch == 3 {
+		c05SeamProbes(w, []string{"C02"})
+	}
 	if w.Batch == 0 {
 		c02Witness(w)
 	}
